@@ -50,8 +50,6 @@ theorem incomp_trans (a b c : Elem)
     (split at h1 <;> split at h2 <;> split at h3 <;> split at h4 <;> split <;>
       simp only [decide_eq_false_iff_not] at * <;> omega)
 
-theorem locLess_irrefl (a : OptLoc) : locLess a a = false := by
-  unfold locLess; cases a.hasLoc <;> simp
 
 /-! ## sorting with an arbitrary comparison -/
 
@@ -208,5 +206,25 @@ theorem nameLess_trans : ∀ a b c : List Nat, nameLess a b = true → nameLess 
           · simp [hbc, hcb] at h2
           · simp [hbc, hcb] at h2 ⊢
             exact nameLess_trans as bs cs h1 h2
+
+theorem locLess_irrefl (a : OptLoc) : locLess a a = false := by
+  unfold locLess declLess
+  cases a.hasLoc <;> simp [nameLess_irrefl]
+
+/-- without source locations the order of two different options is always decided (no ties):
+the property the nondeterminism fix 3895d68 restores -/
+theorem declLess_total (a b : OptLoc) (h : a.index ≠ b.index ∨ a.name ≠ b.name) :
+    declLess a b = true ∨ declLess b a = true := by
+  unfold declLess
+  by_cases hi : a.index = b.index
+  · have hn : a.name ≠ b.name := by
+      rcases h with h | h
+      · exact absurd hi h
+      · exact h
+    simp only [hi, ne_eq, not_true_eq_false, if_false]
+    exact nameLess_total _ _ hn
+  · have hi' : ¬ b.index = a.index := fun e => hi e.symm
+    simp only [ne_eq, hi, hi', not_false_eq_true, if_true, decide_eq_true_eq]
+    omega
 
 end J5V.Print.Order
